@@ -46,6 +46,7 @@ pub fn run(cx: &mut Ctx) {
     unsigned_arithmetic(cx, &src);
     tables(cx, &src);
     parse_order(cx, &src);
+    star_quantities(cx, &src);
     padding(cx, &src);
     flag_accumulation(cx);
     crate::rules::float_rules::float_renderer(cx, "C19.G1");
@@ -114,7 +115,10 @@ fn unsigned_arithmetic(cx: &mut Ctx, src: &sm::Src) {
         cx.fail(rule, &format!("{}/saturating", rule), &src.rel, "a fill count is no longer computed with saturating_sub");
     }
     // `acc = acc.checked_mul(10).and_then(|x| x.checked_add(digit as i32)).ok_or((IntTooBig, index))?` under any names
-    let checked = regex::Regex::new(r"(\w+)=(\w+)\.checked_mul\(10\)\.and_then\(\|(\w+)\|(\w+)\.checked_add\((\w+)asi32\)\)\.ok_or\(\(CFormatErrorType::IntTooBig,index\)\)\?;").unwrap().captures(&t.text).map_or(false, |c| c[1] == c[2] && c[3] == c[4]);
+    // (the accumulator may be a plain i32 or an Option<i32> unwrapped first; what matters is that the step is checked
+    // and that no unchecked `* 10` exists beside it)
+    let checked = regex::Regex::new(r"\.checked_mul\(10\)\.and_then\(\|(\w+)\|(\w+)\.checked_add\((\w+)asi32\)\)\.ok_or\(\(CFormatErrorType::IntTooBig,index\)\)\?;").unwrap().captures(&t.text).map_or(false, |c| c[1] == c[2])
+        && !regex::Regex::new(r"\*10\b|\b10\*|\*=10\b|wrapping_mul\(10\)|saturating_mul\(10\)").unwrap().is_match(&t.text);
     if checked {
         cx.ok(rule, "parse_quantity: checked i32 arithmetic, IntTooBig on overflow");
     } else {
@@ -414,5 +418,39 @@ fn keyed_specifiers(cx: &mut Ctx, src: &sm::Src) {
         cx.ok(rule, "check_specifiers asks has_key() of every specifier part");
     } else {
         cx.fail(rule, &format!("{}/check_specifiers", rule), &src.rel, "check_specifiers does not take the keyed/positional decision from has_key() of each specifier part");
+    }
+}
+
+
+/// C19.Q2: both the width and the precision may be `*` (taken from the values tuple).
+fn star_quantities(cx: &mut Ctx, src: &sm::Src) {
+    let rule = "C19.Q2";
+    cx.rule(rule, "`*` is a quantity in both places Python allows it: the function that reads the width (parse_quantity) and the function that reads the precision after the dot (parse_precision) each reach — in their own body or in a function of the file they call — the test for '*' that yields CFormatQuantity::FromValuesTuple; `%.*f` and `%*.*d` are valid specifiers");
+    cx.floor(rule, 2);
+    let fns = src.all_free_fns();
+    let body = |name: &str| fns.iter().find(|f| f.sig.ident == name).map(|f| sm::tsc(&f.block));
+    let has_star = |t: &str| t.contains("'*'") && t.contains("FromValuesTuple");
+    for name in ["parse_quantity", "parse_precision"] {
+        let Some(t) = body(name) else {
+            cx.anchor_missing(rule, name);
+            continue;
+        };
+        // own body, or a callee of the file (one or two levels)
+        let mut reach = vec![t.clone()];
+        for _ in 0..2 {
+            let mut more = vec![];
+            for f in &fns {
+                let n = f.sig.ident.to_string();
+                if n != name && reach.iter().any(|r| r.contains(&format!("{}(", n))) {
+                    more.push(sm::tsc(&f.block));
+                }
+            }
+            reach.extend(more);
+        }
+        if reach.iter().any(|r| has_star(r)) {
+            cx.ok(rule, &format!("{} reaches the '*' => FromValuesTuple test", name));
+        } else {
+            cx.fail(rule, &format!("{}/{}", rule, name), &src.rel, &format!("{} never tests for '*': a `*` {} is not taken from the values tuple (`%.*f`, `%*d` rejected or misread)", name, if name == "parse_precision" { "precision" } else { "width" }));
+        }
     }
 }
